@@ -1,6 +1,7 @@
 package c10
 
 import (
+	"errors"
 	"encoding/json"
 	"fmt"
 	"os"
@@ -46,6 +47,12 @@ type Cfg struct {
 	Builder bool `json:"builder,omitempty"`
 	// TypedVals: the custom transformer returns map[string]store.Value / []store.Value.
 	TypedVals bool `json:"typedVals,omitempty"`
+	// Nest: the handler is registered two mount levels deep (resources svc.n.r.<id>).
+	Nest bool `json:"nest,omitempty"`
+	// WrapNotFound: the store reports missing values with an error that wraps store.ErrNotFound.
+	WrapNotFound bool `json:"wrapNotFound,omitempty"`
+	// Prefix: key prefix of the badgerstore.
+	Prefix string `json:"prefix,omitempty"`
 }
 
 // Mut is one mutation.
@@ -224,22 +231,47 @@ type fixture struct {
 	cleanup func()
 }
 
+// ridBase is the resource name prefix of the served resources: svc.r. or, when the handler
+// sits two mount levels deep, svc.n.r.
+func ridBase(cfg Cfg) string {
+	if cfg.Nest {
+		return "svc.n.r."
+	}
+	return "svc.r."
+}
+
 func (f *fixture) ridOf(id string) string {
 	switch f.cfg.Trans {
 	case "none":
 		return id // the store id is the resource name
 	case "id":
-		return "svc.r." + id
+		return ridBase(f.cfg) + id
 	default:
-		return "svc.r.x" + id + ".y"
+		return ridBase(f.cfg) + "x" + id + ".y"
 	}
 }
 
 func storeID(cfg Cfg, id string) string {
 	if cfg.Trans == "none" {
-		return "svc.r." + id
+		return ridBase(cfg) + id
 	}
 	return id
+}
+
+// wrapStore reports a missing value with an error that wraps store.ErrNotFound, which the
+// store contract allows (callers use errors.Is).
+type wrapStore struct{ store.Store }
+
+type wrapRead struct{ store.ReadTxn }
+
+func (w wrapStore) Read(id string) store.ReadTxn { return wrapRead{w.Store.Read(id)} }
+
+func (r wrapRead) Value() (interface{}, error) {
+	v, err := r.ReadTxn.Value()
+	if err != nil && errors.Is(err, store.ErrNotFound) {
+		return nil, fmt.Errorf("record %q: %w", r.ID(), store.ErrNotFound)
+	}
+	return v, err
 }
 
 func newFixture(cfg Cfg) (*fixture, error) {
@@ -250,11 +282,14 @@ func newFixture(cfg Cfg) (*fixture, error) {
 			return nil, err
 		}
 		f.cleanup = cleanup
-		f.st = badgerstore.NewStore(db)
+		f.st = badgerstore.NewStore(db).SetPrefix(cfg.Prefix)
 	} else {
 		f.st = mockstore.NewStore()
 	}
 	h := store.Handler{Store: f.st}
+	if cfg.WrapNotFound {
+		h.Store = wrapStore{f.st}
+	}
 	pattern := "r.$id"
 	tr := func(id string, v interface{}) (interface{}, error) { return v, nil }
 	if cfg.Store == "badger" && cfg.Type == "collection" {
@@ -288,7 +323,17 @@ func newFixture(cfg Cfg) (*fixture, error) {
 	if cfg.Type == "collection" {
 		typ = res.Collection
 	}
-	s.Handle(pattern, typ, h)
+	if cfg.Nest {
+		// two mount levels assembled bottom-up: the inner mux is mounted into the middle one
+		// before that one is mounted to the service
+		inner := res.NewMux("")
+		inner.Handle(strings.TrimPrefix(pattern, "r."), typ, h)
+		mid := res.NewMux("")
+		mid.Mount("r", inner)
+		s.Mount("n", mid)
+	} else {
+		s.Handle(pattern, typ, h)
+	}
 	var st2 *mockstore.Store
 	if cfg.Shared && cfg.Trans == "id" {
 		st2 = mockstore.NewStore()
@@ -427,6 +472,23 @@ func (cl client) apply(rid, name string, data []byte, refetch func() (string, er
 	return ""
 }
 
+// nopTxn stands in where no write transaction is open.
+type nopTxn struct{ store.WriteTxn }
+
+func (nopTxn) Close() error { return nil }
+
+// initSeed runs Store.Init with one seed (badgerstore only).
+func (f *fixture) initSeed(m Mut) error {
+	bst, ok := f.st.(*badgerstore.Store)
+	if !ok {
+		return errors.New("Init on a store that has none")
+	}
+	return bst.Init(func(add func(id string, v interface{})) error {
+		add(storeID(f.cfg, m.ID), storedValue(f.cfg, m.V))
+		return nil
+	})
+}
+
 func (f *fixture) mutate(tx store.WriteTxn, m Mut) error {
 	switch m.K {
 	case "create":
@@ -453,9 +515,9 @@ func run(c Case) (msg string, nontrivial bool) {
 	ridFor := func(id string) string {
 		switch c.Cfg.Trans {
 		case "custom":
-			return "svc.r.x" + id + ".y"
+			return ridBase(c.Cfg) + "x" + id + ".y"
 		default:
-			return "svc.r." + id
+			return ridBase(c.Cfg) + id
 		}
 	}
 	for id := range ids {
@@ -466,10 +528,12 @@ func run(c Case) (msg string, nontrivial bool) {
 		cl[ridFor(id)] = v
 	}
 	model := map[string]string{} // id -> stored text
+	inited := false                // Store.Init has run (badgerstore)
 	for i := 0; i < len(c.Muts); {
 		// the group of mutations that share one write transaction
 		j := i + 1
-		for j < len(c.Muts) && c.Muts[j].SameTxn && c.Muts[j].ID == c.Muts[i].ID {
+		isInit := c.Muts[i].K == "init" // Store.Init seeding this id: never shares a transaction
+		for !isInit && j < len(c.Muts) && c.Muts[j].SameTxn && c.Muts[j].ID == c.Muts[i].ID && c.Muts[j].K != "init" {
 			j++
 		}
 		id := c.Muts[i].ID
@@ -477,13 +541,34 @@ func run(c Case) (msg string, nontrivial bool) {
 		startText, startExisted := model[id]
 		var evs []fakeconn.Entry
 		var evAfter []string // per event: the served representation right after its step
-		tx := f.st.Write(storeID(f.cfg, id))
+		var tx store.WriteTxn = nopTxn{}
+		if !isInit {
+			tx = f.st.Write(storeID(f.cfg, id))
+		}
 		for k := i; k < j; k++ {
 			m := c.Muts[k]
 			prevText, existed := model[m.ID]
 			mark := f.conn.LogLen()
-			err := f.mutate(tx, m)
+			var err error
 			okWanted := (m.K == "create") != existed
+			if isInit {
+				err = f.initSeed(m)
+				okWanted = true
+				if inited || existed {
+					// Init seeds once over the store's lifetime and never overwrites
+					inited = true
+					if err != nil {
+						return fmt.Sprintf("mutation %d %+v: Init failed: %v", k, m, err), nontrivial
+					}
+					if n := f.conn.LogLen() - mark; n != 0 {
+						return fmt.Sprintf("mutation %d %+v: an Init that seeds nothing published %d messages", k, m, n), nontrivial
+					}
+					continue
+				}
+				inited = true
+			} else {
+				err = f.mutate(tx, m)
+			}
 			if (err == nil) != okWanted {
 				_ = tx.Close()
 				return fmt.Sprintf("mutation %d %+v: error %v with exists=%v (store contract)", k, m, err, existed), nontrivial
@@ -653,6 +738,11 @@ func genCfg(storeKind string) *rapid.Generator[Cfg] {
 		c.Trans = rapid.SampledFrom([]string{"none", "id", "custom"}).Draw(t, "trans")
 		c.Shared = c.Trans == "id" && rapid.IntRange(0, 2).Draw(t, "shared") == 0
 		c.Builder = rapid.Bool().Draw(t, "builder")
+		c.Nest = rapid.IntRange(0, 3).Draw(t, "nest") == 0
+		if storeKind == "badger" {
+			c.Prefix = rapid.SampledFrom([]string{"", "pfx"}).Draw(t, "prefix")
+		}
+		wrapnf := storeKind == "mock" && rapid.IntRange(0, 3).Draw(t, "wrapnf") == 0
 		c.TypedVals = c.Trans == "custom" && rapid.IntRange(0, 2).Draw(t, "typedvals") == 0
 		if storeKind == "badger" && c.Type == "collection" && c.Trans == "none" {
 			c.Trans = "id"
@@ -671,6 +761,9 @@ func genCfg(storeKind string) *rapid.Generator[Cfg] {
 				c.Default = `[1,"a"]`
 			}
 		}
+		// (without a default, what a get of a missing record answers when the store wraps its
+		// not-found error is not specified: only generated together with a default)
+		c.WrapNotFound = wrapnf && c.Default != ""
 		return c
 	})
 }
@@ -695,7 +788,10 @@ func genCase(storeKind string) *rapid.Generator[Case] {
 				}
 				last[m.ID] = m.V
 			}
-			if i > 0 && c.Muts[i-1].ID == m.ID {
+			if storeKind == "badger" && m.K == "create" && rapid.IntRange(0, 3).Draw(t, "asinit") == 0 {
+				m.K = "init" // the id is offered as a seed to Store.Init instead
+			}
+			if i > 0 && c.Muts[i-1].ID == m.ID && m.K != "init" {
 				m.SameTxn = rapid.IntRange(0, 3).Draw(t, "sametxn") == 0
 			}
 			c.Muts = append(c.Muts, m)
